@@ -179,20 +179,31 @@ func (pi progImporter) Import(ipath string) (*types.Package, error) {
 
 // Load parses and type-checks the program. Any error is an internal error of the
 // synthesiser (programs must be well typed) unless allowErrors is set.
+// ParseReversed: see Load.
+var ParseReversed bool
+
 func Load(p *Program) (*Loaded, error) {
 	fset := token.NewFileSet()
 	l := &Loaded{Prog: p, Fset: fset, Pkgs: map[string]*packages.Package{}}
 	for _, pk := range p.Pkgs {
-		var syntax []*ast.File
-		var names []string
-		for _, f := range pk.Files {
+		// go/packages parses the files of a package concurrently: the order in which they enter the
+		// FileSet (hence the relative order of token.Pos across files) is not fixed. ParseReversed
+		// makes them enter in reverse order; Syntax and GoFiles keep the order of the file list.
+		syntax := make([]*ast.File, len(pk.Files))
+		names := make([]string, len(pk.Files))
+		for k := range pk.Files {
+			i := k
+			if ParseReversed {
+				i = len(pk.Files) - 1 - k
+			}
+			f := pk.Files[i]
 			abs := p.AbsFile(pk, f.Name)
 			af, err := parser.ParseFile(fset, abs, f.Src, parser.ParseComments|parser.SkipObjectResolution)
 			if err != nil {
 				return nil, fmt.Errorf("parse %s: %v", abs, err)
 			}
-			syntax = append(syntax, af)
-			names = append(names, abs)
+			syntax[i] = af
+			names[i] = abs
 		}
 		info := &types.Info{
 			Types:        map[ast.Expr]types.TypeAndValue{},
